@@ -417,6 +417,7 @@ def _pc_rule(chk):
         chk.instances[ni:] = [i for i in chk.instances[ni:] if i['verdict'] == 'OK']
         if dropped:
             chk.ok('C08.PC', 'program counter: decided by the abstract runs (C08.E) for every list up to the bound; the shape rule does not recognise this spelling')
+            chk.floors.pop('C08.PC', None)
 
 
 def run(chk):
@@ -440,8 +441,8 @@ def run(chk):
     from . import c09
     chk.rule('C09.D', 'shared with C09: per-statement increment is a read-modify-write on the shared options object')
     chk.rule('C09.W', 'shared with C09: who writes the counter')
-    chk.guard('C09.D', c09.check_dominance, chk)
-    chk.guard('C09.W', c09.check_stores, chk)
+    step_ok = not any(f.rule.startswith('C08.') for f in chk.findings) and not any(u['rule'].startswith('C08.E') for u in chk.unrecognised)
+    c09.check_counter_shape(chk, step_ok, ('D', 'W'))
     # function statement + new invocation per call are C04.R / C04.F
     from .c04 import check_function_statement, check_frames
     chk.rule('C04.R', 'shared with C04: function statement binds a global callable')
